@@ -41,3 +41,8 @@ package directory
 //@ func (*directory._UnixFSBasicDir).LookupByNode
 //@ prop C03 C15
 //@ ensures key-node-is-looked-up-by-its-string: err == nil ==> lastKey(n) == nodeString(key)
+
+// C15: the native accessor agrees with LookupByString: it scans the same links for the same name.
+//@ func (*directory._UnixFSBasicDir).Lookup
+//@ prop C15
+//@ at call utils.Lookup#1 assert scans-its-own-links-for-this-key: callee_key == key.x && callee_links.x == n._substrate.Links.x
